@@ -149,7 +149,7 @@ def main():
             "name": "sa",
             "path": "sa/",
             "serves_properties": [c["property_id"] for c in checks],
-            "kind_free_text": "repository-specific static analysis in pure Python (ast): loader/name resolver, CFG with exception and generator-close edges, call graph, write-effect/alias analysis, provenance, kind abstract interpreter, and a definitional interpreter (sa/tokeval.py) that evaluates the AST of package functions and classes over tables of abstract scenarios (opaque tokens + verdict oracles, ordered abstract scalars, stub collaborators); nothing from /repo is imported or executed by Python",
+            "kind_free_text": "repository-specific static analysis in pure Python (ast): loader/name resolver with source normalisations, CFG with exception and generator-close edges, call graph, write-effect/alias analysis, provenance, kind abstract interpreter, and a definitional interpreter (sa/tokeval.py) that evaluates the AST of package functions and classes over tables of abstract scenarios (opaque tokens + verdict oracles, ordered abstract scalars, stub collaborators; generators lazy, closed when dropped); nothing from /repo is imported or executed by Python",
         }],
         "checks": checks,
         "notes": "Static analysis only. Exit 0 ok / 1 VIOLATION / 2 ANALYSIS-ERROR. Known findings in known_findings.json.",
